@@ -19,7 +19,7 @@ Fixpoint cut_at (sep : ascii) (s : string) : string * string :=
   match s with
   | EmptyString => (EmptyString, EmptyString)
   | String c s' => if Ascii.eqb c sep then (EmptyString, s')
-                   else (String c (fst (cut_at sep s')), snd (cut_at sep s'))
+                   else let (a, b) := cut_at sep s' in (String c a, b)
   end.
 
 (* strings.TrimLeft(s, string(c)) *)
